@@ -16,7 +16,7 @@ from drivers import cachelib as CL
 from drivers import c05
 
 PROP = "C16"
-STACKS = ["pooled", "hash", "hashpooled", "retrying", "retrying2"]
+STACKS = ["pooled", "hash", "hashpooled", "retrying", "retrying2", "hashrec", "hashpooledrec"]
 
 
 def extra_events():
@@ -60,14 +60,21 @@ def main(tier, rep):
         for hi, h in enumerate(sample):
             stack = STACKS[(hi + ci) % len(STACKS)]
             extra = extra_events() if hi % 4 == 0 else []
-            if stack in ("hash", "hashpooled"):
+            if stack in ("hash", "hashpooled", "hashrec", "hashpooledrec"):
                 # HashClient does not offer item-style access (c[k], c[k] = v, del c[k])
                 extra = [e for e in extra if e["op"] not in ("setitem", "getitem", "delitem", "getitem-miss", "getitem-empty")]
             hist = list(h) + extra
             variant = (hi * 2 + ci) * 2        # even: the noreply argument is left to the defaults where possible
             skw = dict(kw)
+            if stack.endswith("rec"):
+                # a HashClient whose server has failed once before every call and is being retried by it (retry_timeout elapsed):
+                # the code path "retrying failed server" must send and return what the ordinary path does
+                hist = [x for e in hist for x in (([{"e": "tick", "d": 2}] if e["e"] == "op" else []) + [e])]
             ref = CL.replay_history("client", hist, variant, dn=dn, prefix=prefix, **skw)
-            if stack == "retrying2":
+            if stack.endswith("rec"):
+                got = CL.replay_history(stack[:-3], hist, variant, dn=dn, prefix=prefix, recover=True, retry_attempts=10 ** 6, **skw)      # (never given up on)
+                attempts = 1
+            elif stack == "retrying2":
                 got = replay_with(CL, "retrying", hist, variant, dn, prefix, skw, attempts=2)
                 attempts = 2
             else:
@@ -175,6 +182,9 @@ def main(tier, rep):
     rep.set("traces_validated_against_impl", len(evs))
     rep.set("trace_states", st)
     rep.set("histories_compared", nh)
+    rep.set("server_failures_injected_before_retried_calls", CL.RECOVER_STATS["failures_injected"])
+    if CL.RECOVER_STATS["failures_injected"] < 100:
+        raise common.MachineryError("the recovering HashClient stacks were not exercised")
     for ti, lst in sorted(rej.items()):
         for pos, clauses in lst:
             ev = evs[ti * B + pos - 1]
